@@ -111,6 +111,7 @@ NAME_POOLS = [
     ["7", "11", "3", "5", "0", "2", "13", "1"],
     ["q1", "q10", "q", "s", "s2", "1", "11", "q11"],      # names that are substrings of each other
     ["a", "b", "a,b", "c", "b,c", "a,b,c", "d", "c,d"],   # names whose printed state sets collide
+    ["{a}", "{b,c}", "{a,b}", "{c}", "{a,b,c}", "{}", "{b}", "{a,c}"],   # names that are printed state sets themselves
 ]
 
 
